@@ -48,6 +48,10 @@ int c_eckhardt(int nval, int timestep_type,
     C2 = (1 - alpha)*BFI_max;
     C3 = 1 - (alpha*BFI_max);
 
+    /* Nothing to filter */
+    if(nval < 1)
+        return 0;
+
     /* Initialise */
     q = inputs[0];
     q = (q<0 || isnan(q)) ? 0 : inputs[0];
